@@ -47,6 +47,7 @@ type Op struct {
 	Fail bool    `json:"fail,omitempty"` // tx: return an error at the end (rollback)
 	Sess string  `json:"sess,omitempty"` // the operation runs on handle.Session(<this option>) / WithContext / Debug (tx: "prepintx" = sub-operations on tx.Session(PrepareStmt))
 	Cond string  `json:"cond,omitempty"` // find: form of the own-rows condition: "" (text) | struct | map | ids | not | or
+	Bare bool    `json:"bare,omitempty"` // assoc_* / delete_select: the parent value carries its primary key only and is NOT read from the database first (nothing but gorm's own code runs between the barrier and the association's first use)
 }
 
 type DBSpec struct {
@@ -59,6 +60,7 @@ type DBSpec struct {
 	OrBase      bool
 	Shared      *SharedSpec `json:",omitempty"` // a shared Session handle carrying N chain items; shared_find ops add one more
 	NamerDelays [][]int     `json:",omitempty"` // concurrent run: microseconds goroutine g sleeps inside its k-th namer.TableName call (cyclic)
+	ColDelays   [][]int     `json:",omitempty"` // concurrent run: microseconds goroutine g sleeps inside its k-th namer.ColumnName call (cyclic): between the second cache look-up and LoadOrStore
 	NoMigrate   []int `json:",omitempty"` // types of the round that are not migrated (their parse fails)
 	WarmTypes   []int `json:",omitempty"` // cold rounds: these types (pool indices) are used once, serially, before the goroutines start
 	SessionPrep bool `json:",omitempty"` // handle opened WITHOUT Config.PrepareStmt; every op runs on its own db.Session(&gorm.Session{PrepareStmt: true})
@@ -123,6 +125,26 @@ type recNamer struct {
 	evs    []BuildEv
 	delays [][]int // per worker: microseconds slept inside its k-th TableName call (cyclic); nil = none
 	calls  []int32
+	colDelays [][]int // per worker: microseconds slept inside its k-th ColumnName call (cyclic); nil = none
+	colCalls  []int32
+}
+
+// ColumnName is called once per column while the fields are parsed, i.e. between the second cache
+// look-up and LoadOrStore.
+func (n *recNamer) ColumnName(table, column string) string {
+	r := n.NamingStrategy.ColumnName(table, column)
+	if len(n.colDelays) == 0 {
+		return r
+	}
+	if v, ok := n.gids.Load(goid()); ok {
+		if g := v.(int); g >= 0 && g < len(n.colDelays) && len(n.colDelays[g]) > 0 {
+			k := int(atomic.AddInt32(&n.colCalls[g], 1)) - 1
+			if d := n.colDelays[g][k%len(n.colDelays[g])]; d > 0 {
+				time.Sleep(time.Duration(d) * time.Microsecond)
+			}
+		}
+	}
+	return r
 }
 
 func (n *recNamer) TableName(s string) string {
@@ -545,9 +567,16 @@ func execOp(h *gorm.DB, base *gorm.DB, op Op, panics *[]string, pmu *sync.Mutex)
 			return nil
 		})
 		return OpResult{Err: errText(err), Rows: "tx[" + strings.Join(subs, " ; ") + "]"}
+	case "delete_select":
+		// Delete with Select(<association>): the related rows (has one / has many) or join rows
+		// (many2many) of the record go first, then the record
+		tx := h.Select(op.Rel).Delete(bareRec(op.T, op.ID).Interface())
+		return done(tx, "")
 	case "assoc_append", "assoc_find", "assoc_count", "assoc_delete", "assoc_replace", "assoc_clear":
 		m := d.New()
-		if tx := h.Where(between, op.Lo, op.Hi).First(m, op.ID); tx.Error != nil {
+		if op.Bare {
+			m = bareRec(op.T, op.ID).Interface()
+		} else if tx := h.Where(between, op.Lo, op.Hi).First(m, op.ID); tx.Error != nil {
 			return OpResult{Err: "load: " + tx.Error.Error()}
 		}
 		a := h.Model(m).Association(op.Rel)
@@ -668,6 +697,9 @@ func runDB(spec DBSpec, dir string, serial bool) (obs DBObs) {
 	namer := &recNamer{gids: gids}
 	if !serial && len(spec.NamerDelays) > 0 {
 		namer.delays, namer.calls = spec.NamerDelays, make([]int32, len(spec.NamerDelays))
+	}
+	if !serial && len(spec.ColDelays) > 0 {
+		namer.colDelays, namer.colCalls = spec.ColDelays, make([]int32, len(spec.ColDelays))
 	}
 	db, err := gorm.Open(sqlite.Open(dsn), &gorm.Config{Logger: logger.Discard, PrepareStmt: spec.PrepareStmt && !spec.SessionPrep, NamingStrategy: namer})
 	if err != nil {
@@ -1759,24 +1791,162 @@ func sprinkle(r *lib.Rng, spec *DBSpec) {
 	}
 }
 
-// genBadDB: database operations on a model whose parse FAILS (invalid relation), first used by several
-// goroutines at once next to a good model: every operation on it returns the parse error, alone and
-// together (the cache entry is deleted and re-made by every caller).
+// genBadDB: database operations on models whose parse FAILS in the relation phase (BadP: the only
+// relation is malformed; BadQ: a well-formed has-many, then the malformed one), next to good models.
+// Alone every operation on such a model returns the parse error and runs no SQL; the failed entry is
+// removed from the cache, so EVERY operation on it is a first use again.  Step by step behind the spin
+// barrier all goroutines use the same failing model at the same moment (the kinds differ), the namer
+// sleeps in ColumnName (between the second look-up and LoadOrStore), so that one goroutine publishes
+// and the others find its entry in LoadOrStore or in one of the two look-ups; good-model steps in between.
 func genBadDB(r *lib.Rng, g int) DBSpec {
-	bp, bk := poolByName["BadP"], poolByName["BadK"]
+	bp, bk, bq, bqk := poolByName["BadP"], poolByName["BadK"], poolByName["BadQ"], poolByName["BadQKid"]
 	singles := Families["single"]
 	u := singles[r.Intn(len(singles))]
-	spec := DBSpec{G: g, Cold: true, PrepareStmt: r.Bool(), Conns: 4, Types: []int{bp, bk, u}, NoMigrate: []int{bp}, SyncOps: 2}
+	spec := DBSpec{G: g, Cold: true, PrepareStmt: r.Bool(), Conns: 4, Types: []int{bp, bk, u, bq, bqk}, NoMigrate: []int{bp, bq}}
+	if spec.PrepareStmt {
+		spec.Conns = g
+	}
+	steps := 14
+	stepT := make([]int, steps)
+	for k := range stepT {
+		switch {
+		case k%4 == 3:
+			stepT[k] = lib.Pick(r, []int{bk, u, bqk})
+		default:
+			stepT[k] = lib.Pick(r, []int{bp, bp, bq})
+		}
+	}
+	d := 0
+	if r.Chance(3, 4) {
+		d = 60 + 20*r.Intn(12)
+	}
 	for gi := 0; gi < g; gi++ {
 		base := int64(gi) * idSpan
 		lo, hi := base+1, base+idSpan-1
-		bad := func(k string) Op { return Op{Kind: k, T: bp, ID: base + 1, Name: "b", Val: 1, Lo: lo, Hi: hi} }
-		first := []Op{bad("find"), {Kind: "find", T: bk, Lo: lo, Hi: hi}, bad("create"), {Kind: "create", T: u, ID: base + 1, Name: "u", Val: 3}}[gi%4]
-		prog := []Op{first, bad(lib.Pick(r, []string{"find", "count", "first", "create"})),
-			{Kind: "create", T: bk, ID: base + 5, Name: "k", Val: 2},
-			bad("count"), {Kind: "find", T: bk, Lo: lo, Hi: hi}, {Kind: "find", T: u, Lo: lo, Hi: hi}, bad("first")}
+		var prog []Op
+		next := int64(0)
+		for k, t := range stepT {
+			if Pool[t].Bad {
+				kind := []string{"find", "create", "count", "first", "update", "delete", "updates", "create_batch"}[(gi+k+r.Intn(2))%8]
+				next++
+				prog = append(prog, Op{Kind: kind, T: t, ID: base + next, IDs: []int64{base + 500 + next, base + 600 + next}, Name: "b", Val: 1, Lo: lo, Hi: hi})
+			} else if k%8 == 3 {
+				next++
+				prog = append(prog, Op{Kind: "create", T: t, ID: base + next, Name: "k", Val: 2})
+			} else {
+				prog = append(prog, Op{Kind: "find", T: t, Lo: lo, Hi: hi})
+			}
+		}
+		spec.Programs = append(spec.Programs, prog)
+		if d > 0 {
+			spec.ColDelays = append(spec.ColDelays, []int{d + 10*r.Intn(5)})
+		}
+	}
+	spec.SyncOps = steps
+	return spec
+}
+
+// genAssocFirst: the FIRST use of a relation in Association mode (Find / Count / Delete / Clear / Replace
+// build their conditions from the shared schema.Relationship: Relationship.ToQueryConditions) and
+// through Delete with Select(<association>), by all goroutines at the same moment.  Every goroutine
+// first creates its own parents with nested children (that path never asks the relation for query
+// conditions); then, relation by relation and step by step behind the spin barrier, every goroutine
+// runs an association operation on its OWN parent: the first such step of a relation is the first
+// time anybody asks it for conditions.  Parent values of these steps carry the primary key only
+// (Bare), so that nothing but gorm's own code runs between the barrier and the first use.  has one /
+// has many / many2many relations of every family (polymorphic, self-referential, soft-delete children,
+// embedded ones too); cold (the creates are the first use of the types) or warm handle.
+func genAssocFirst(r *lib.Rng, i, g int, thorough bool) DBSpec {
+	type pr struct {
+		t   int
+		rel RelDesc
+	}
+	byFam := map[string][]pr{}
+	var fams []string
+	for _, d := range Pool {
+		if d.Bad || d.Family == "bad" {
+			continue
+		}
+		for _, rl := range okRels(d.Idx, "has_many", "has_one", "many2many") {
+			if len(byFam[d.Family]) == 0 {
+				fams = append(fams, d.Family)
+			}
+			byFam[d.Family] = append(byFam[d.Family], pr{d.Idx, rl})
+		}
+	}
+	sort.Strings(fams)
+	fam := fams[(i+r.Intn(2)*7)%len(fams)]
+	prs := append([]pr{}, byFam[fam]...)
+	lib.Shuffle(r, prs)
+	if len(prs) > 3 {
+		prs = prs[:3]
+	}
+	spec := DBSpec{G: g, Cold: r.Bool(), PrepareStmt: r.Chance(1, 3), Conns: 4, Types: append([]int{}, Families[fam]...)}
+	if spec.PrepareStmt {
+		spec.Conns = g
+	}
+	nPar := int64(4)
+	firstKinds := []string{"assoc_count", "assoc_find", "delete_select", "assoc_clear", "assoc_count", "assoc_delete", "assoc_find", "assoc_replace"}
+	rot := r.Intn(len(firstKinds))
+	laterKinds := []string{"assoc_count", "assoc_find", "assoc_append", "assoc_find", "assoc_count", "delete_select"}
+	later := 3
+	if thorough {
+		later = 6
+	}
+	for gi := 0; gi < g; gi++ {
+		base := int64(gi) * idSpan
+		lo, hi := base+1, base+idSpan-1
+		var prog []Op
+		next := int64(1000)
+		kidsOf := map[int64][]int64{}
+		// parents with nested children: parent j of pair p has id base + 10*p + j
+		for p, x := range prs {
+			many := x.rel.Kind != "has_one"
+			for j := int64(1); j <= nPar; j++ {
+				id := base + int64(10*(p+1)) + j
+				n := 1
+				if many {
+					n = 2 + int(j%2)
+				}
+				var kids []int64
+				for k := 0; k < n; k++ {
+					next++
+					kids = append(kids, base+next)
+				}
+				kidsOf[id] = kids
+				prog = append(prog, Op{Kind: "create", T: x.t, ID: id, Name: fmt.Sprintf("p%d", j), Val: j, Rel: x.rel.Field, RelT: x.rel.To, Kids: kids})
+			}
+		}
+		for p, x := range prs {
+			many := x.rel.Kind != "has_one"
+			par := func(j int64) int64 { return base + int64(10*(p+1)) + j }
+			mk := func(kind string, j int64, bare bool) Op {
+				op := Op{Kind: kind, T: x.t, ID: par(j), Rel: x.rel.Field, RelT: x.rel.To, Lo: lo, Hi: hi, Name: "a", Bare: bare}
+				switch kind {
+				case "assoc_delete":
+					op.Kids = kidsOf[par(j)][:1]
+				case "assoc_replace", "assoc_append":
+					next++
+					op.Kids = []int64{base + next}
+					if many && kind == "assoc_replace" {
+						next++
+						op.Kids = append(op.Kids, base+next)
+					}
+					op.Bare = false
+				}
+				return op
+			}
+			// the first use of the relation: everybody at once, kinds rotate over the goroutines
+			prog = append(prog, mk(firstKinds[(gi+rot+p)%len(firstKinds)], 1, true))
+			prog = append(prog, mk("assoc_count", 2, true), mk("assoc_find", 2, gi%2 == 0))
+			for k := 0; k < later; k++ {
+				prog = append(prog, mk(laterKinds[(gi+k+p)%len(laterKinds)], 3+int64(k%2), k%2 == 0))
+			}
+			prog = append(prog, Op{Kind: "find", T: x.rel.To, Lo: lo, Hi: hi})
+		}
 		spec.Programs = append(spec.Programs, prog)
 	}
+	spec.SyncOps = len(spec.Programs[0])
 	return spec
 }
 
